@@ -2,6 +2,7 @@
 """Re-run every kept seeded change (seeded/*/patch.diff) against the check of its property, N at a time, each in its
 own scratch worktree of /repo (VERIF_REPO).  Expected: every one is reported (exit 1).  Usage: regress_seeded.py [N] [filter]"""
 import subprocess, sys, os, json, glob, tempfile, shutil, concurrent.futures as cf
+ROOT = os.path.dirname(os.path.dirname(os.path.abspath(__file__)))     # the tree this tool lives in (/verif, or a worktree of it)
 N = int(sys.argv[1]) if len(sys.argv) > 1 else 4
 flt = sys.argv[2] if len(sys.argv) > 2 else ""
 def one(d):
@@ -16,7 +17,7 @@ def one(d):
     try:
         subprocess.check_call(["git", "-C", "/repo", "worktree", "add", "-q", "--detach", wt, "HEAD"])
         subprocess.check_call(["git", "-C", wt, "apply", os.path.join(d, "patch.diff")])
-        r = subprocess.run(["./check", pid], cwd="/verif", stdout=subprocess.PIPE, stderr=subprocess.STDOUT, text=True,
+        r = subprocess.run(["./check", pid], cwd=ROOT, stdout=subprocess.PIPE, stderr=subprocess.STDOUT, text=True,
                            env=dict(os.environ, VERIF_REPO=wt))
         last = [l for l in r.stdout.strip().split("\n") if l.startswith(("VIOLATION", "OK", "KNOWN"))]
         return os.path.basename(d), pid, r.returncode, " / ".join(last)[:200]
@@ -25,7 +26,7 @@ def one(d):
     finally:
         subprocess.call(["git", "-C", "/repo", "worktree", "remove", "--force", wt])
         shutil.rmtree(scratch, ignore_errors=True)
-dirs = [d for d in sorted(glob.glob("/verif/seeded/*")) if flt in d and os.path.exists(os.path.join(d, "patch.diff"))]
+dirs = [d for d in sorted(glob.glob(os.path.join(ROOT, "seeded", "*"))) if flt in d and os.path.exists(os.path.join(d, "patch.diff"))]
 bad = 0
 with cf.ThreadPoolExecutor(N) as ex:
     for name, pid, rc, txt in ex.map(one, dirs):
@@ -33,5 +34,5 @@ with cf.ThreadPoolExecutor(N) as ex:
         if rc != 1:
             bad += 1
         print("%s %-55s %s rc=%d %s" % (flag, name, pid, rc, txt), flush=True)
-subprocess.call(["python3", "/verif/tools/extract.py"])
+subprocess.call(["python3", os.path.join(ROOT, "tools", "extract.py")])
 print("missed: %d of %d" % (bad, len(dirs)))
